@@ -122,7 +122,9 @@ structure PSt (cap mc : Nat) (W0 L0 Z : Bytes) (c : Conn) (F : Bytes) : Prop whe
   ph : (c.phase = .parseReq (track cap mc F) .reading ∧ (run .header F mc).st.isFinal = false ∧
           c.env.tr.wlog = L0 ++ (run .header F mc).out) ∨
        (∃ rest, c.phase = .parseReq (track cap mc F) (.writing rest (run .header F mc).st.isFinal) ∧
-          c.env.tr.wlog ++ rest = L0 ++ (run .header F mc).out)
+          c.env.tr.wlog ++ rest = L0 ++ (run .header F mc).out ∧
+          -- the unsent `rest` is a suffix of the request parser's output
+          ∃ pre, (run .header F mc).out = pre ++ rest)
 
 /-- 1 while `parse_request` is in one of its `write_all`s -/
 def wbit (c : Conn) : Nat :=
@@ -150,7 +152,7 @@ theorem parse_loop {cap mc : Nat} {W0 L0 Z : Bytes} (h24 : 24 ≤ cap) (hns : No
   | _ M ih =>
     intro c F hst hM
     obtain ⟨hwire, hstop, hben, hrem, hph⟩ := hst
-    rcases hph with ⟨hphase, hnf, hlog⟩ | ⟨rest, hphase, hlog⟩
+    rcases hph with ⟨hphase, hnf, hlog⟩ | ⟨rest, hphase, hlog, opre, hopre⟩
     · -- reading
       by_cases hin : c.env.tr.input = []
       · exact ⟨0, c, F, by omega, .refl _, .refl _,
@@ -215,7 +217,8 @@ theorem parse_loop {cap mc : Nat} {W0 L0 Z : Bytes} (h24 : 24 ≤ cap) (hns : No
               refine ⟨?_, hstop, hben.step hts, hrem', Or.inr ⟨o, rfl, ?_⟩⟩
               · show (F ++ bs) ++ t.input ++ Z = W0
                 rw [List.append_assoc F, ← hinp]; exact hwire
-              · show t.wlog ++ o = _
+              · refine ⟨?_, (run .header F mc).out, hout⟩
+                show t.wlog ++ o = _
                 rw [hwl, hlog, hout, List.append_assoc]
             obtain ⟨n, c1, F1, hn, hs, hfr, hout'⟩ := ih (2 * t.input.length + 1) (by
                 have : wbit c = 0 := by simp [wbit, hphase]
@@ -248,8 +251,9 @@ theorem parse_loop {cap mc : Nat} {W0 L0 Z : Bytes} (h24 : 24 ≤ cap) (hns : No
         refine ⟨0, c, F, by omega, .refl _, .refl _, Or.inl
           ⟨{ c with phase := .parseReq (track cap mc F) (.writing rest' (run .header F mc).st.isFinal), env := { c.env with tr := t' } },
             hstep, ?_, ⟨rfl, rfl, rfl, rfl, hts⟩, hwk, hans⟩⟩
-        refine ⟨by simpa [hinp] using hwire, hstop, hben.step hts, hrem, Or.inr ⟨rest', rfl, ?_⟩⟩
-        show t'.wlog ++ rest' = _
-        rw [hl, List.append_assoc, ← hd, hlog]
+        refine ⟨by simpa [hinp] using hwire, hstop, hben.step hts, hrem, Or.inr ⟨rest', rfl, ?_, opre ++ dn, ?_⟩⟩
+        · show t'.wlog ++ rest' = _
+          rw [hl, List.append_assoc, ← hd, hlog]
+        · rw [hopre, hd, List.append_assoc]
 
 end Fcgi.E2E
